@@ -23,14 +23,19 @@ def toExec (j : Json) : ExecResult :=
     sets := ((objPairs (fld j "sets")).getD []).map fun kv => (L kv.1, L (asStr kv.2)),
     dels := (getStrs j "dels").map L }
 
-def toWorld (w : Json) (now : Int) : World :=
+/-- The x509 oracle is the ground truth of how the harness built the chain FOR THIS CALL: a chain
+    that relies on an intermediate certificate supplied by the caller (`needs_caller`) is not valid
+    in a call that is made without the caller's intermediates (`useInters = false`). -/
+def toWorld (w : Json) (now : Int) (useInters : Bool := true) : World :=
   let sigs : List (Str × Str × Str) := (getArr w "sigs").map fun e =>
     match asStrs e with
     | [p, m, s] => (L p, L m, L s)
     | _ => ([], [], [])
   let mat : List (Str × Str) := ((objPairs (fld w "mat")).getD []).map fun kv => (L kv.1, L (asStr kv.2))
   let certs : List (Str × CertData) := ((objPairs (fld w "certs")).getD []).map fun kv =>
-    (L kv.1, { key := toKey (fld kv.2 "key"), info := toCertInfo (fld kv.2 "info") })
+    let ci := toCertInfo (fld kv.2 "info")
+    (L kv.1, { key := toKey (fld kv.2 "key"),
+               info := { ci with chainOK := ci.chainOK && (useInters || !getBool (fld kv.2 "info") "needs_caller") } })
   let phc : List (Str × Bool) := ((objPairs (fld w "pem_has_cert")).getD []).map fun kv =>
     (L kv.1, match kv.2 with | Json.bool b => b | _ => false)
   let execs : List (List Str × ExecResult) := (getArr w "exec").map fun e =>
@@ -66,7 +71,7 @@ def handleVerify (op : String) (a : Json) : Option Json :=
          | none => Json.mkObj [("res", "err")])
       | _ => Json.mkObj [("res", "err")])
   | "verify" | "verify-rep" | "verify-hist" | "cliverify" =>
-    let W := toWorld (fld a "world") (getInt a "now_ns")
+    let Wof (useInters : Bool) := toWorld (fld a "world") (getInt a "now_ns") useInters
     match loadMetadata (L (getStr a "layout_text")) with
     | .ok md =>
       let keys : List (Str × Key) := (getArr a "keys").map fun k => (L (getStr k "mapkey"), toKey k)
@@ -80,8 +85,8 @@ def handleVerify (op : String) (a : Json) : Option Json :=
            | _ => .ok (L (getStr a "rundir")))
         else .none
       let fs : FS := ((objPairs (fld a "fs_digests")).getD []).map fun kv => (L kv.1, L (asStr kv.2))
-      let one (params : List (Str × Str)) : Json :=
-        let r := verify W (getBool a "line_norm") ((getStrs a "caller_inters").map L) md keys dir
+      let one (params : List (Str × Str)) (useInters : Bool := true) : Json :=
+        let r := verify (Wof useInters) (getBool a "line_norm") (if useInters then (getStrs a "caller_inters").map L else []) md keys dir
                    (L (getStr a "step_name")) params rd fs
         let ran := Json.arr (r.ran.map fun e => Json.str (S e.1)).toArray
         let files := Json.arr ((sortBy (fun x y => InToto.Json.strLt x y) (r.fs.map Prod.fst)).map fun p => Json.str (S p)).toArray
@@ -93,7 +98,11 @@ def handleVerify (op : String) (a : Json) : Option Json :=
       if op == "verify-hist" then
         -- a history of verifications on the same objects: the model is a pure function of its
         -- inputs, so every element is simply the verdict for that parameter dictionary
-        some (Json.mkObj [("runs", Json.arr ((getArr a "param_list").map fun p => one (toParams p)).toArray),
+        -- (a run may be made WITHOUT the caller's intermediate certificates: "inters_list")
+        let il := getArr a "inters_list"
+        let runs := (getArr a "param_list").zipIdx.map fun (p, i) =>
+          one (toParams p) (match il[i]? with | some (Json.bool false) => false | _ => true)
+        some (Json.mkObj [("runs", Json.arr runs.toArray),
                           ("inputs_changed", Json.bool false)])
       else if op == "cliverify" && getBool a "honest" then
         -- C20: files the tools wrote in an honest, untampered history must be accepted (the verdict the
